@@ -254,11 +254,11 @@ class HybridGibbs:
                 # Store acceptance rate in sampler (matching behavior of Sampler class Sample method)
                 sampler._acc.append(acc)
 
-            # Extract samples (Ensure even 1-dimensional samples are 1D arrays)
+            # Extract samples (Ensure even 1-dimensional samples are 1D arrays, also when the point is still a plain number)
             if isinstance(sampler.current_point, np.ndarray):
                 self.current_samples[par_name] = sampler.current_point.reshape(-1)
             else:
-                self.current_samples[par_name] = sampler.current_point
+                self.current_samples[par_name] = np.asarray(sampler.current_point).reshape(-1)
 
     def tune(self, skip_len, update_count):
         """ Run a single tuning step on each of the samplers in the Gibbs sampling scheme
